@@ -1,6 +1,6 @@
 (* Properties_C01.v — the theorems that decide property C01 on the model, each stated in full and closed by
    `exact <lemma>`; the lemmas live in the Proofs_*.v files.  Nothing else belongs in this file. *)
-From Theo Require Import Base Tokens Errors MacroExtract Parser VMModel VMSpec VMStatements GenModel Compile RefSem SemStatements Proofs_Sem C01Statements C01Stages RefSemChk Proofs_C01s2a Proofs_C01s2 C01Stages3 Proofs_C01s3 C01Stages4 Regex Lexer Scan Grammar LR MacroApply Gen_Lexer Proofs_C01s4q Proofs_C01s4 Proofs_C01s4w.
+From Theo Require Import Base Tokens Errors MacroExtract Parser VMModel VMSpec VMStatements GenModel Compile RefSem SemStatements Proofs_Sem C01Statements C01Stages RefSemChk Proofs_C01s2a Proofs_C01s2 C01Stages3 Proofs_C01s3 C01Stages4 Regex Lexer Scan Grammar LR MacroApply Gen_Lexer Proofs_C01s4q Proofs_C01s4 Proofs_C01s4w NamesStatements Proofs_Names Proofs_C01source.
 Local Open Scope Z_scope.
 
 
@@ -128,3 +128,40 @@ Theorem C01_pipeline :
     (forall n s, run_ref_chk n rs = OFuel -> vm_run n (init (cr_prog c)) = Ok s -> isDone s = Ok false).
 Proof. exact C01_pipeline_proof. Qed.
 Print Assumptions C01_pipeline.
+
+Theorem C01_lexable_safe :
+  forall tok, lexable tok = true -> safe_name tok = true.
+Proof. exact C01_lexable_safe_proof. Qed.
+Print Assumptions C01_lexable_safe.
+
+Theorem C01_pipeline_safe_names :
+  forall files main p root, parse files main = Ok p -> pr_root p = Some root -> safe_names root = true.
+Proof. exact C01_pipeline_safe_names_proof. Qed.
+Print Assumptions C01_pipeline_safe_names.
+
+Theorem C01_pipeline_lexable :
+  forall files main p root,
+    Forall (fun kv => lexable (fst kv) = true) files ->
+    parse files main = Ok p -> pr_ok p = true -> pr_root p = Some root -> lexable_names root = true.
+Proof. exact C01_pipeline_lexable_proof. Qed.
+Print Assumptions C01_pipeline_lexable.
+
+Theorem C01_pipeline_lexable_needs_ok :
+  ~ C01_pipeline_lexable_unguarded_stmt.
+Proof. exact C01_pipeline_lexable_needs_ok_proof. Qed.
+Print Assumptions C01_pipeline_lexable_needs_ok.
+
+Theorem C01_source :
+  forall files main c p root rs,
+    Forall (fun kv => lexable (fst kv) = true) files ->
+    compile files main = Ok c -> cr_ok c = true ->
+    parse files main = Ok p -> pr_root p = Some root ->
+    canonical4 root = true ->
+    abstract_source (Some root) = Some rs ->
+    (forall fuel rviews steps trace, run_ref_chk fuel rs = OStop rviews steps trace ->
+       exists k s vmviews,
+         vm_run k (init (cr_prog c)) = Ok s /\ isDone s = Ok true /\
+         views s = Ok vmviews /\ Forall2 view_agrees vmviews rviews /\ (steps <= k)%nat) /\
+    (forall n s, run_ref_chk n rs = OFuel -> vm_run n (init (cr_prog c)) = Ok s -> isDone s = Ok false).
+Proof. exact C01_source_proof. Qed.
+Print Assumptions C01_source.
